@@ -159,7 +159,7 @@ def _exact_pd(prog):
   class Swapped(Spec):
     def make(self, name, p, ex):
       return p.new_loc(ArrState(TH.cols2(z3.Const('pairs', T), z3.IntVal(1), z3.IntVal(0)),
-                                Shape(3, [z3.Int('n'), z3.IntVal(2), z3.Int('d')]), 'f', ('param', name)))
+                                Shape(3, [z3.Int('n'), z3.IntVal(2), z3.Int('d')]), 'f', frozenset({('param', name)})))
   q2, t2, a2 = _result_term(prog, PD, 'fitted-noprep', {'pairs': Swapped()})
   hyps = list(q1.pc) + list(q2.pc)
   # the two runs create their own symbols for the callee results; identify the callee results of equal arguments
@@ -190,7 +190,7 @@ def _exact_mf(prog):
     def __init__(self, nm):
       self.nm = nm
     def make(self, name, p, ex):
-      return p.new_loc(ArrState(z3.Const(self.nm, T), Shape(1, [z3.Int('d')]), 'f', ('param', name)))
+      return p.new_loc(ArrState(z3.Const(self.nm, T), Shape(1, [z3.Int('d')]), 'f', frozenset({('param', name)})))
   q1, t1, a1 = _result_term(prog, MF, 'plain', {'u': Named('x'), 'v': Named('y')}, want_scalar=True)
   q2, t2, a2 = _result_term(prog, MF, 'plain', {'u': Named('y'), 'v': Named('x')}, want_scalar=True)
   o = Obligation('C01/lemma/exact/get_metric-symmetric', 'lemma-ieee', list(q1.pc) + list(q2.pc), t1 == t2, dict(t1=str(t1)[:200], t2=str(t2)[:200]))
